@@ -30,13 +30,31 @@ def features(b):
     ks = []
     b_ = b
     active = {}
+    opened = {}
     for e in b:
         if e.get("ev") == "set_active":
             active[e.get("w", "")] = e.get("label", "")
         k = e.get("ev", "") + ":" + str(e.get("stage", "")) + ("L" if e.get("late") else "") + ("T" if e.get("ttlb") else "")
         # the account context matters (multi-account interplay): which account is active, which is named
         k += "@" + active.get(e.get("w", ""), "") + (">" + e["src"] if e.get("src") else "") + (":" + e["tamper"] if e.get("tamper") else "")
+        if e.get("eff") == 0:
+            k += "!noeffect"
+        elif isinstance(e.get("eff"), int) and e["eff"] > 1:
+            k += "#%d" % e["eff"]
+        if e.get("ev") == "cancel" and (e.get("id", 0) == -1 or e.get("by")):
+            k += "/byslate"
         ks.append((k, e.get("sl", e.get("id", "")), e.get("w", "")))
+        # how many OTHER slates are open (started, not cancelled) when this happens
+        # (= slates with a log entry in THIS wallet: locked, received or invoiced there)
+        sl = e.get("sl") or e.get("by") or ""
+        mine = opened.setdefault(e.get("w", ""), set())
+        others = len([x for x in mine if x != sl])
+        f.add(("ctx", k, min(others, 2)))
+        if sl:
+            if e.get("ev") == "cancel":
+                mine.discard(sl)
+            elif e.get("ev") in ("issue_invoice", "receive", "lock") or (e.get("ev") == "finalize" and e.get("late")):
+                mine.add(sl)
     for i in range(len(ks)):
         f.add(("1", ks[i][0]))
         for j in range(i + 1, len(ks)):
